@@ -102,6 +102,9 @@ pub(crate) fn sched_point(site: &'static str) {
 pub use crate::cluster::metadata::merge_channel::verif_api::{
     VerifMergeReceiver, VerifMergeSender, verif_merge_channel,
 };
+pub use crate::cluster::metadata::update::verif_api::{
+    VerifChanges, VerifRefreshReceiver, VerifRefreshSender, VerifTaken, VerifUpdateSlot,
+};
 pub use crate::network::verif_api::{VerifHandlerLookup, VerifHandlerMap};
 pub use crate::policies::speculative_execution::verif_api::speculative_execute;
 pub use crate::routing::locator::tablets::verif_api::{VerifTablet, VerifTablets};
